@@ -368,6 +368,12 @@ class C04(Property):
 
     def initial(self, b):
         out = []
+        # variable fonts: the derived fields of the font that comes back (after varLib merged the
+        # masters, possibly dropped implied points, and the post-processor reloaded the font)
+        for fl in ("ttf", "cff2"):
+            for drop in ((False, True) if fl == "ttf" else (False,)):
+                for names in (True, False):
+                    out.append([{"part": "vf", "flavour": fl, "drop": drop, "production_names": names}])
         for fl in FLAVOURS:
             for v in (False, True):
                 for nd in NOTDEFS:
@@ -406,6 +412,8 @@ class C04(Property):
 
     def ops(self, h, b):
         cfg = h[0]
+        if cfg["part"] == "vf":
+            return ()
         n = len(h) - 1
         if cfg["part"] == "h":
             if n < cfg["full"]:
@@ -430,8 +438,87 @@ class C04(Property):
         return [cp for cp in CP_PALETTE if cp is None or cp not in used]
 
     # -- one state ---------------------------------------------------------------------------
+    def run_vf(self, cfg):
+        import ufo2ft
+        # a circle of four cubics whose on-curve points are implied by their neighbours after conversion
+        # to quadratics (dropImpliedOnCurves removes them in the merged variable font), a box, a composite
+        k = 55.25
+
+        def circle(r):
+            q = r * k / 100
+            return [(r, 0, "curve"), (r, q, None), (q, r, None), (0, r, "curve"), (-q, r, None), (-r, q, None),
+                    (-r, 0, "curve"), (-r, -q, None), (-q, -r, None), (0, -r, "curve"), (q, -r, None), (r, -q, None)]
+
+        def master(i):
+            r = 100 + 40 * i
+            g = {".notdef": {"width": 500, "contours": [B.box(50, 0, 450, 700)]},
+                 "o": {"width": 400 + 20 * i, "unicodes": [0x6F], "contours": [circle(r)]},
+                 "b": {"width": 500, "unicodes": [0x62], "contours": [B.box(10, 0, 90 + 20 * i, 100)]},
+                 "c": {"width": 520, "unicodes": [0x63], "components": [("o", (1, 0, 0, 1, 30 + i, 0)),
+                                                                         ("b", (1, 0, 0, 1, 300, 0))]}}
+            return {"glyphs": g, "order": list(g), "info": {"styleName": "M%d" % i}}
+        ds = B.build_designspace([{"name": "Weight", "tag": "wght", "min": 0, "default": 0, "max": 1000}],
+                                 [{"spec": master(0), "location": {"Weight": 0}},
+                                  {"spec": master(1), "location": {"Weight": 1000}}])
+        kw = {"useProductionNames": cfg["production_names"]}
+        if cfg["flavour"] == "ttf":
+            otf = ufo2ft.compileVariableTTF(ds, dropImpliedOnCurves=cfg["drop"], **kw)
+        else:
+            otf = ufo2ft.compileVariableCFF2(ds, **kw)
+        viols, ctrs = [], {"variable_fonts": 1}
+        feat = {"flavour": cfg["flavour"], "part": "vf", "drop": cfg["drop"], "production_names": cfg["production_names"]}
+        # (in memory only the fields ufo2ft sets itself are compared, as in the static parts: fontTools
+        #  recalculates the point / contour maxima when the font is compiled)
+        mem_maxp = {f: getattr(otf["maxp"], f) for f in ("numGlyphs", "maxComponentElements", "maxComponentDepth")
+                    if hasattr(otf["maxp"], f)}
+        b1 = save(otf)
+        tt = TTFont(io.BytesIO(b1))
+        b2 = save(tt)
+        if b2 != b1:
+            viols.append(violation("resave-differs", dict(feat, mode="lazy"), tables=_diff_tables(b1, b2)))
+        tt3 = TTFont(io.BytesIO(b1), lazy=False)
+        decompile_everything(tt3)
+        b3 = save(tt3)
+        if b3 != b1:
+            viols.append(violation("resave-differs", dict(feat, mode="decompiled"), tables=_diff_tables(b1, b3)))
+        tt = TTFont(io.BytesIO(b1))
+        order, boxes, extra = read_glyph_data(tt)
+        mp = tt["maxp"]
+        if mp.numGlyphs != len(order):
+            viols.append(violation("derived-field", dict(feat, table="maxp", field="numGlyphs", where="reloaded"),
+                                   expected=len(order), observed=mp.numGlyphs))
+        for f, want in extra.get("maxp", {}).items():
+            for where, val in (("reloaded", getattr(mp, f)), ("compiled-object", mem_maxp.get(f, want))):
+                if val != want:
+                    viols.append(violation("derived-field", dict(feat, table="maxp", field=f, where=where),
+                                           expected=want, observed=val))
+        if cfg["flavour"] == "ttf":
+            npts = len(tt["glyf"]["o" if "o" in order else order[1]].coordinates)
+            ctrs["vf_implied_points_dropped"] = int(cfg["drop"] and npts < 16)
+            ctrs["vf_circle_points"] = npts
+        # hhea / head derived from the default master's stored outlines
+        hm = tt["hmtx"].metrics
+        adv = max(a for a, _ in hm.values())
+        if tt["hhea"].advanceWidthMax != adv:
+            viols.append(violation("derived-field", dict(feat, table="hhea", field="advanceWidthMax", where="reloaded"),
+                                   expected=adv, observed=tt["hhea"].advanceWidthMax))
+        for n in order:
+            bx = boxes.get(n)
+            if bx is not None and hm[n][1] != bx[0]:
+                viols.append(violation("derived-field", dict(feat, table="hmtx", field="lsb", where="reloaded"),
+                                       glyph=n, expected=bx[0], observed=hm[n][1]))
+        seen, out = set(), []
+        for v in viols:
+            kx = (v["kind"], str(sorted(v["features"].items())))
+            if kx not in seen:
+                seen.add(kx)
+                out.append(v)
+        return Result(out, ctrs, digest([order, len(b1), [v["kind"] for v in out]]), substates=1, nontrivial=1)
+
     def run(self, h, b):
         cfg = h[0]
+        if cfg["part"] == "vf":
+            return self.run_vf(cfg)
         spec, src = build_spec(h)
         flavour = cfg["flavour"]
         viols, ctrs = [], {}
